@@ -174,13 +174,14 @@ func (i *Int) Clone() kyber.Scalar {
 
 // Zero set the Int to the value 0.  The modulus must already be initialized.
 func (i *Int) Zero() kyber.Scalar {
-	i.V = *compatible.NewInt(0)
+	// Mod gives the value the announced length of the modulus, which Add/Sub require.
+	i.V = *compatible.NewInt(0).Mod(compatible.NewInt(0), i.M)
 	return i
 }
 
 // One sets the Int to the value 1.  The modulus must already be initialized.
 func (i *Int) One() kyber.Scalar {
-	i.V = *compatible.NewInt(1)
+	i.V = *compatible.NewInt(0).Mod(compatible.NewInt(1), i.M)
 	return i
 }
 
